@@ -153,7 +153,10 @@ pub fn execute(sc: &dyn Scenario, plan: &Plan, env: &Env) -> Rec {
     let prev_e = kernel::seams::set_entropy(Some(Xo::derive(plan.seed, &[0xBA5E])));
     let prev_c = kernel::seams::clock_ns();
     kernel::seams::set_clock_ns(Some(kernel::sim::EPOCH_NS));
+    kernel::seams::set_mono_ns(0);
     sc.run(plan, env, &mut rec);
+    // the next run on this thread starts later on the monotonic clock than this one ended
+    kernel::seams::advance_mono_base(4_000_000_000_000);
     kernel::seams::set_clock_ns(prev_c);
     kernel::seams::set_entropy(prev_e);
     rec
